@@ -216,7 +216,10 @@ def _nbytes(traj):
         return 1000
 
 
-def history_path(L, first_ops=None, backend_kind='fake', job_huge=False):
+def history_path(L, first_ops=None, backend_kind='fake', job_huge=False, start='empty'):
+    """start: 'empty' (a store just created), or 'read3' / 'append3' (a file-backed store that already holds three
+    trajectories, reopened for reading / appending): the bounded history then begins in a state that itself takes five
+    operations to reach"""
     def fn(ex):
         ST, FS, TR = S.mods()
         small_cache = choose('small_cache', [True, False])
@@ -232,6 +235,18 @@ def history_path(L, first_ops=None, backend_kind='fake', job_huge=False):
             mode = 'w'
             model = []
             nxt = 1
+            if start != 'empty' and not in_memory:
+                for _ in range(3):
+                    SIZES[nxt] = 1000
+                    ts.add(S.make_traj(nxt))
+                    model.append(nxt)
+                    nxt += 1
+                ts.close()
+                hist.append(f'[{start}: 3 trajectories on file]')
+                if start == 'read3':
+                    ts, mode = ST.TrajectoryStore.open(base_file=path, cache_size_mb=csz), 'r'
+                else:
+                    ts, mode = ST.TrajectoryStore.append(base_file=path, cache_size_mb=csz), 'a'
             try:
                 for step in range(L):
                     op = choose(f'op{step}', OPS if not (first_ops and step < len(first_ops)) else [first_ops[step]])
@@ -322,7 +337,7 @@ def run_histories(job):
     out = dict(obligations={}, violations=[], samples=[], distinct=set(), unknown=[], paths=0)
     oid = 'C07.history.store_behaves_as_list'
     d = out['obligations'].setdefault(oid, dict(unsat=0, sat=0, unknown=0))
-    for p in ex.explore(history_path(job['L'], job.get('first_ops'), job_huge=job.get('huge', False))):
+    for p in ex.explore(history_path(job['L'], job.get('first_ops'), job_huge=job.get('huge', False), start=job.get('start', 'empty'))):
         if p.exc is not None:
             out['violations'].append(dict(obligation='harness', detail=f'{p.exc!r} {(p.tb or "")[-500:]}', values={}, tags={}))
             continue
@@ -362,10 +377,10 @@ def _session_kind(hist):
     return 'append' if 'reopen_append' in hist else ('read' if 'reopen_read' in hist else 'create')
 
 
-def replay_history(v, L, first_ops=None, huge=False):
+def replay_history(v, L, first_ops=None, huge=False, start='empty'):
     """the same operation sequence on the real netCDF4-backed store"""
     run = sx.ConcreteRun(v['values'])
-    res, exc = run.run(history_path(L, first_ops, backend_kind='real', job_huge=huge))
+    res, exc = run.run(history_path(L, first_ops, backend_kind='real', job_huge=huge, start=start))
     if exc is not None:
         return False, f'harness raised {exc!r}'
     return bool(res['problems']), f"real netCDF4: history {res['history']} -> {res['problems'][:2]}"
